@@ -208,14 +208,17 @@ CutSet(d) == {c \in 1..12 : c % (IF Tier = "thorough" /\ d = 0 THEN 2 ELSE 4) = 
 RCuts == {2, 4}
 PhiCuts(d) == IF Tier = "thorough" /\ d <= 1 THEN {4, 6, 8, 9, 12, 15, 16, 20} ELSE {8, 12, 15}
 MaxSrcs == IF Tier = "quick" THEN 3 ELSE 4
+ThinBox(s) == s.cls = "Cuboid" /\ MaxS({s.geo[1], s.geo[2], s.geo[3]}) >= 100 * MinS({s.geo[1], s.geo[2], s.geo[3]})
 Histories == {<<"reorient">>, <<"use", "reorient">>, <<"mesh", "reorient">>, <<"tricoll", "reorient", "use">>, <<"check", "use", "reorient">>}
              \cup (IF Tier = "quick" THEN {} ELSE {<<"reorient", "use", "reorient">>, <<"check", "reorient">>, <<"use", "mesh", "tricoll", "reorient">>})
 LiveOps == IF Tier = "quick" THEN {"use", "reorient", "check"} ELSE {"use", "mesh", "tricoll", "check", "reorient"}
 ReprActs(cfg, d) ==
   LET I == 1..Len(cfg.srcs) IN
        (IF Len(cfg.srcs) < MaxSrcs
-        THEN {[name |-> "Split", i |-> i, axis |-> a, cut |-> c] : i \in I, a \in 1..3, c \in CutSet(d)}
-             \cup {[name |-> "Split", i |-> i, axis |-> a, cut |-> cfg.srcs[i].geo[a] \div 2] : i \in {i \in I : cfg.srcs[i].cls = "Cuboid"}, a \in 1..3}    \* halves
+        THEN {[name |-> "Split", i |-> i, axis |-> a, cut |-> c] : i \in {i \in I : ~ThinBox(cfg.srcs[i])}, a \in 1..3, c \in CutSet(d)}
+             \* thin plates: halves and a slab of one lattice unit
+             \cup {[name |-> "Split", i |-> i, axis |-> a, cut |-> c] : i \in {i \in I : ThinBox(cfg.srcs[i])}, a \in 1..3, c \in {4}}
+             \cup {[name |-> "Split", i |-> i, axis |-> a, cut |-> cfg.srcs[i].geo[a] \div 2] : i \in {i \in I : ThinBox(cfg.srcs[i])}, a \in 1..3}
              \cup {[name |-> "SplitSeg", i |-> i, kind |-> "r", cut |-> c] : i \in I, c \in RCuts}
              \cup {[name |-> "SplitSeg", i |-> i, kind |-> "phi", cut |-> c] : i \in I, c \in PhiCuts(d)}
              \cup {[name |-> "SplitSeg", i |-> i, kind |-> "z", cut |-> c] : i \in I, c \in CutSet(d)}
